@@ -2,7 +2,7 @@
 # Confirms every seeded change in its scratch worktree: patch applies, suite gives 404 passed, demo exits 0 clean / 1 changed.
 for p in c09 c10 c16 c17 c18 c20; do
   W=/tmp/${SEEDPFX:-seed}-$p; git -C $W checkout -q --detach main
-  for i in 1 2 3; do
+  for i in ${SEEDIDX:-1 2 3}; do
     git -C $W checkout -q -- svgelements
     /venv/bin/python -B $W/_out/demo$i.py $W >/dev/null 2>&1; clean=$?
     git -C $W apply $W/_out/change$i.diff || { echo "$p $i PATCH-FAIL"; continue; }
